@@ -7,6 +7,7 @@ they may contain blanks.
 import SmVerif.Model.SketchParams
 import SmVerif.Model.SketchFeed
 import SmVerif.Model.SketchNames
+import SmVerif.Model.SketchFromfile
 import SmVerif.Model.Proto
 
 namespace Sm.DriverSketch
@@ -110,7 +111,7 @@ def feedLine (dm : Option Mol) (split : Bool) (input : Input) (force : Bool) (ps
   let hashS := Murmur3.hashNat
   let fpart : String :=
     match factory ps dm split with
-    | .error e => "err " ++ e.name
+    | .error e => "err " ++ e.cls.name ++ " " ++ e.name
     | .ok sigs =>
       let fed := sigs.map (fun sg => sg.map (fun b => feedBT hashS b (hfOfCode b.hf) input force seqs))
       match (fed.flatten.filterMap (fun r => stopErr r.2)).head? with
@@ -168,15 +169,128 @@ def parseFiles (ws : List String) : Option (List SeqFile) :=
       | _, _ => none
     | [] => none)
 
-def namesLine (mode : NameMode) (k : Nat) (files : List SeqFile) : String :=
-  let units := plan mode files
-  let one (u : SigUnit) : String :=
+def leChars : List Char → List Char → Bool
+  | [], _ => true
+  | _ :: _, [] => false
+  | a :: as, b :: bs => if a.toNat < b.toNat then true else if b.toNat < a.toNat then false else leChars as bs
+
+/-- stable insertion sort by output path -/
+def sortByPath (l : List (List Char × String)) : List (List Char × String) :=
+  l.foldr (fun x acc =>
+    let rec ins : List (List Char × String) → List (List Char × String)
+      | [] => [x]
+      | y :: ys => if leChars x.1 y.1 then x :: y :: ys else y :: ins ys
+    ins acc) []
+
+structure NameOpts where
+  out : OutMode := .single
+  rand : Bool := false
+  check : Bool := false
+
+def nameOpts (flags : List String) : Option NameOpts :=
+  flags.foldlM (fun (o : NameOpts) f =>
+    if f = "dir" then some { o with out := .dir true }
+    else if f = "newdir" then some { o with out := .dir false }
+    else if f = "cwd" then some { o with out := .cwd }
+    else if f = "rand" then some { o with rand := true }
+    else if f = "check" then some { o with check := true }
+    else none) {}
+
+def namesLine (mode : NameMode) (opts : NameOpts) (k : Nat) (files : List SeqFile) : String :=
+  let p : CP := { ksizes := [k], seed := 42, protein := false, dayhoff := false, hp := false, dna := true,
+                  num := 0, track := false, scaled := 1 }
+  match planOutputs mode opts.out files with
+  | .error .exit => "err SystemExit"
+  | .error .noDir =>
+    -- the missing directory is noticed when the first input that has records is closed; an invalid
+    -- record in that input (with --check-sequence) ends the command before that
+    match files.find? (fun f => !f.records.isEmpty) with
+    | some f =>
+      let r := feedBT Murmur3.hashNat (template p k .dna) .dna .dna (!opts.check) (f.records.map Prod.snd)
+      if r.2 != Seq.Stop.done then "err SystemExit" else "err FileNotFoundError"
+    | none => "err FileNotFoundError"
+  | .ok outs =>
     let p : CP := { ksizes := [k], seed := 42, protein := false, dayhoff := false, hp := false, dna := true,
                     num := 0, track := false, scaled := 1 }
-    let b := (feedBT Murmur3.hashNat (template p k .dna) .dna .dna true u.records).1
-    let d := b.md5sum.2
-    s!"{hexOfChars (u.name.getD [])}|{hexOfChars u.filename}|MD5\{{d.ksize};{joinNats d.mins}}"
-  "ok " ++ ";".intercalate (units.map one)
+    let fed := outs.map (fun pu =>
+      (pu, feedBT Murmur3.hashNat (template p k .dna) .dna .dna (!opts.check) pu.2.records))
+    -- `_compute_individual` catches the ValueError of an invalid record and exits; `_compute_merged` does not
+    if fed.any (fun r => r.2.2 != Seq.Stop.done) then
+      (match mode with | .merge _ => "err ValueError" | _ => "err SystemExit") else
+    let recs := fed.map (fun r =>
+      let u := r.1.2
+      let d := r.2.1.md5sum.2
+      (r.1.1, s!"{hexOfChars r.1.1}|{hexOfChars (u.name.getD [])}|{hexOfChars u.filename}|MD5\{{d.ksize};{joinNats d.mins}}"))
+    -- `--randomize` is accepted by the sketch subcommands and ignored by `_execute_sketch`
+    "ok " ++ ";".intercalate ((sortByPath recs).map Prod.snd)
+
+/-! ### `native`: the Rust path (ComputeParameters builder -> Signature::from_params -> add_sequence /
+add_protein) through rust-harness module `sketch`; each sketch as it is and as `signature_first_mh`
+converts it -/
+
+def nativeLine (p : CP) (input : Input) (force : Bool) (seqs : List (List Nat)) : String :=
+  let fed := (buildTemplate p).map (fun b => feedBT Murmur3.hashNat b (hfOfCode b.hf) input force seqs)
+  if fed.any (fun r => r.2 != Seq.Stop.done) then "err" else
+  let one (b : BT) : String :=
+    let (b1, d) := b.md5sum
+    let ab := match b1.abunds with
+      | some m => joinNats (m.map Prod.snd)
+      | none => "-"
+    let v := b1.intoVec
+    let abv := match v.abunds with
+      | some a => joinNats a
+      | none => "-"
+    let dv := v.md5sum.2
+    s!"{b.ksize}:{b.hf}:{b.num}:{b.maxHash}:{b.seed}:{b2s b.trackAbundance}:MD5\{{d.ksize};{joinNats d.mins}}:{joinNats b.mins}:{ab}/{v.num}:{v.maxHash}:MD5\{{dv.ksize};{joinNats dv.mins}}:{joinNats v.mins}:{abv}"
+  "ok " ++ "|".intercalate (fed.map (fun r => one r.1))
+
+/-! ### `fromfile` (`Model/SketchFromfile.lean`) -/
+
+def ffRow? (t : String) : Option FFRow :=
+  match t.splitOn ":" with
+  | [n, g, p] => do pure ⟨← decode n, ← decode g, ← decode p⟩
+  | _ => none
+
+def doneRow? (t : String) : Option DoneRow :=
+  match t.splitOn ":" with
+  | [n, mol, k, num, scaled, ab] => do
+    pure ⟨← decode n, ← molOfName mol, ← nat? k, ← nat? num, ← nat? scaled, ← bool? ab⟩
+  | _ => none
+
+def molOfCP (p : CP) : Mol := if p.dna then .dna else if p.protein then .protein else if p.dayhoff then .dayhoff else .hp
+
+/-- `_compute_sigs`, unit after unit; the first problem ends the command -/
+def fromfileUnits (files : List SeqFile) : List (FFKey × List CP) → List String → String
+  | [], acc => "ok " ++ ";".intercalate acc
+  | ((name, fname), ps) :: rest, acc =>
+    match files.find? (fun f => f.name = fname) with
+    | none => "err FileNotFound"
+    | some f =>
+      if f.records.isEmpty then "exit -1" else
+      match unitInputIsProtein ps with
+      | .error _ => "err AssertionError"
+      | .ok isProt =>
+        let recs := f.records.map Prod.snd
+        let one (p : CP) : String :=
+          let k := p.ksizes.headD 0
+          let b := (feedBT Murmur3.hashNat (template p k (molOfCP p)) (molOfCP p).toHashFn
+                      (if isProt then .protein else .dna) true recs).1
+          let d := b.md5sum.2
+          s!"{hexOfChars name}|{hexOfChars (recordedFilename fname)}|{showSketch b}|MD5\{{d.ksize};{joinNats d.mins}}"
+        fromfileUnits files rest (acc ++ ps.map one)
+
+def fromfileLine (ign : Bool) (ps : List (List Char)) (files : List SeqFile) (rows : List FFRow)
+    (done : List DoneRow) : String :=
+  match factoryInit ps none with
+  | .error _ => "exit -1"
+  | .ok pl =>
+    match mapM' (computeParamsOf true) pl with
+    | .error e => "err " ++ e.cls.name
+    | .ok cps =>
+      match fromfilePlan cps.flatten rows done ign with
+      | .error .nothing => "exit 0"
+      | .error _ => "exit -1"
+      | .ok tb => fromfileUnits files tb []
 
 def step (st : Unit) (line : String) : Unit × String :=
   let bad := (st, "bad-op")
@@ -189,34 +303,62 @@ def step (st : Unit) (line : String) : Unit × String :=
       | .ok (mt, p) =>
         let ks := ",".intercalate (p.ksize.map showInt)
         (st, s!"ok mt={showOpt Mol.name mt} k={ks} num={showOpt toString p.num} scaled={showOpt toString p.scaled} seed={showOpt showInt p.seed} tr={showOpt b2s p.track}")
-      | .error e => (st, "err " ++ e.name)
+      | .error e => (st, "err " ++ e.cls.name ++ " " ++ e.name)
     | none => bad
   | "factory" :: dm :: split :: hs =>
     match mol? dm, bool? split, hs.mapM decode with
     | some dm, some split, some ps =>
       match factory ps dm split with
       | .ok sigs => (st, "ok " ++ ";".intercalate (sigs.map showSig))
-      | .error e => (st, "err " ++ e.name)
+      | .error e => (st, "err " ++ e.cls.name ++ " " ++ e.name)
     | _, _, _ => bad
   | "first" :: dm :: split :: hs =>
     match mol? dm, bool? split, hs.mapM decode with
     | some dm, some split, some ps =>
       match factory ps dm split with
       | .ok sigs => (st, "ok " ++ ";".intercalate (sigs.map (fun sg => showOpt showMH (firstMh sg))))
-      | .error e => (st, "err " ++ e.name)
+      | .error e => (st, "err " ++ e.cls.name ++ " " ++ e.name)
     | _, _, _ => bad
   | "feed" :: dm :: split :: kind :: force :: rest =>
     match mol? dm, bool? split, input? kind, bool? force, splitFeed rest with
     | some dm, some split, some input, some force, some (ps, specs, seqs) => (st, feedLine dm split input force ps specs seqs)
     | _, _, _, _, _ => bad
   | "names" :: mode :: k :: rest =>
-    match nameMode? mode, nat? k, parseFiles rest with
-    | some mode, some k, some files => (st, namesLine mode k files)
-    | _, _, _ => bad
+    match mode.splitOn "+" with
+    | m :: flags =>
+      match nameMode? m, nameOpts flags, nat? k, parseFiles rest with
+      | some mode, some opts, some k, some files => (st, namesLine mode opts k files)
+      | _, _, _, _ => bad
+    | [] => bad
+  | "fromfile" :: ign :: "P" :: rest =>
+    let isMark (t : String) : Bool := t = "F" || t = "R" || t = "A"
+    let ps := rest.takeWhile (fun t => !isMark t)
+    let r1 := rest.dropWhile (fun t => !isMark t)
+    let fileToks := r1.takeWhile (· ≠ "R")
+    match r1.dropWhile (· ≠ "R") with
+    | "R" :: r2 =>
+      let rowToks := r2.takeWhile (· ≠ "A")
+      match r2.dropWhile (· ≠ "A") with
+      | "A" :: doneToks =>
+        match bool? ign, ps.mapM decode, parseFiles fileToks, rowToks.mapM ffRow?, doneToks.mapM doneRow? with
+        | some ign, some ps, some files, some rows, some done => (st, fromfileLine ign ps files rows done)
+        | _, _, _, _, _ => bad
+      | _ => bad
+    | _ => bad
   | ["setname", fname, name] =>
     match decode fname, (if name = "none" then some none else (decode name).map some) with
     | some fname, some name => (st, s!"ok {hexOfChars (name.getD [])}|{hexOfChars (recordedFilename fname)}")
     | _, _ => bad
+  | "native" :: ks :: seed :: pr :: dy :: hp :: dna :: num :: tr :: scaled :: inp :: force :: "S" :: seqs =>
+    match (ks.splitOn ",").mapM nat?, nats? [seed, num, scaled], [pr, dy, hp, dna, tr, force].mapM bool?,
+          (if inp = "d" then some Input.dna else if inp = "p" then some Input.protein else none),
+          seqs.mapM unhexBytes with
+    | some ks, some [seed, num, scaled], some [pr, dy, hp, dna, tr, force], some input, some seqs =>
+      if ks.any (· ≥ 2 ^ 32) ∨ num ≥ 2 ^ 32 ∨ seed ≥ 2 ^ 64 ∨ scaled ≥ 2 ^ 64 then bad else
+      let p : CP := { ksizes := ks, seed := seed, protein := pr, dayhoff := dy, hp := hp, dna := dna,
+                      num := num, track := tr, scaled := scaled }
+      (st, nativeLine p input force seqs)
+    | _, _, _, _, _ => bad
   | ["cp", ks, seed, pr, dy, hp, dna, num, tr, scaled] =>
     match (ks.splitOn ",").mapM nat?, nats? [seed, num, scaled], [pr, dy, hp, dna, tr].mapM bool? with
     | some ks, some [seed, num, scaled], some [pr, dy, hp, dna, tr] =>
